@@ -10,7 +10,23 @@ Two versions of the code are modelled, selected by `Cfg`:
 * `Cfg.orig`   — the code as found: `make([]byte, n)` for a 3-byte length prefix before the data is read,
                  `reflect.MakeSlice(t, 0, ln)` with the 32-bit wire count, `val.Elem().Type()` on a nil pointer field;
 * `Cfg.fixed`  — the repaired code (the `fix:` commits): chunked `readN`, capacity `min(ln, maxPrealloc)`, nil pointer
-                 fields are allocated. The driver runs `Cfg.fixed`; it must agree with the current source. -/
+                 fields are allocated. The driver runs `Cfg.fixed`; it must agree with the current source.
+
+Partial operations of the Go code and where they are in the model (`tl_decode_total` has to prove the live ones safe):
+* `binary.LittleEndian.Uint32(b)` / `Uint64(b)` (index `b[3]` / `b[7]`)  — `u32le` / `u64le`, panic on a short slice; the
+  proof needs that `io.ReadFull` fills the buffer or fails (`readFull_ok_len`);
+* `chunk[:k]` in `readN`                                                  — `sliceTo maxPrealloc k`, panic for `k < 0` or
+  `k > 4096`; the proof needs the loop condition `len(data) < n` and the `min`;
+* `val.Elem().Type()` on a nil pointer field                              — `crash` under `Cfg.nilPtrPanics` (code as found);
+* `sizeBuf[:3]`, `b[0]` of a `[1]byte`, `b[:]` of a `[4]byte`, `t[3]..t[0]` after `len(t) != 4` — constant bounds, total;
+* `make([]byte, n)`: `n` is a byte or at most `maxPrealloc` (64-bit `int`: `int(uint32)` is not negative) — total, COUNTED;
+* `reflect.New(..).Interface().(UnmarshalerTL)`                           — comma-ok assertion, total;
+* reflect panics that depend on the Go TYPE only and not on the input (`FieldByName("SumType").SetString` on a field
+  that is not a string, `Set` on an unexported field is guarded by `CanSet`) are NOT in the model: `Ty` is the shape the
+  decoder sees, not the Go type. Every alternative of every shipped sum type is decoded at least once on the Go side
+  from an accepted encoding (the `valid` lines of `tld.dec`; conditional fields with random mode bits), which is the test
+  for an input-independent panic.
+* `decodeLength` / `processQueryAnswer` (liteclient/client.go): slice expressions with explicit bounds panics (below). -/
 namespace Tongo.TlD
 
 structure Cfg where
@@ -68,20 +84,36 @@ def le : List UInt8 → Nat
   | [] => 0
   | b :: bs => b.toNat + 256 * le bs
 
+/-- `binary.LittleEndian.Uint32(b)` on a SLICE `b`: the compiler's bounds check `_ = b[3]` panics on a short slice -/
+def u32le (b : List UInt8) : Outcome Nat :=
+  if b.length < 4 then .panic "index out of range [3]" else .ok (le (b.take 4))
+
+/-- `binary.LittleEndian.Uint64(b)` -/
+def u64le (b : List UInt8) : Outcome Nat :=
+  if b.length < 8 then .panic "index out of range [7]" else .ok (le (b.take 8))
+
+@[inline] def liftO {α} (o : Outcome α) : M α := fun s => (o, s)
+
+/-- `buf[:k]` for a Go int `k` on a buffer of length `len`: out of range panics -/
+def sliceTo (len : Nat) (k : Int) : M Unit := fun s =>
+  if k < 0 ∨ (len : Int) < k then (.panic "slice bounds out of range", s) else (.ok (), s)
+
 /-- the padding loop of readByteSlice: `k` single-byte reads -/
 def padLoop : Nat → M Unit
   | 0 => ret ()
   | k + 1 => bind (readFull 1) fun _ => padLoop k
 
-/-- repaired `readN`, the loop over chunks for n > maxPrealloc: `k` = chunks left, `rem` = bytes left. Each chunk is
+/-- repaired `readN`, the loop over chunks for n > maxPrealloc: fuel = chunks left, `n` = wanted, `got` = len(data). Each chunk is
 read into a fixed buffer and appended (the append is what is counted). -/
-def readChunks : Nat → Nat → M Unit
-  | 0, _ => ret ()
-  | k + 1, rem =>
-    if rem = 0 then ret ()   -- `for len(data) < n`
+def readChunks : Nat → Nat → Nat → M Unit
+  | 0, _, _ => ret ()
+  | fuel + 1, n, got =>
+    if n ≤ got then ret ()   -- `for len(data) < n`
     else
-      let c := min rem maxPrealloc
-      bind (readFull c) fun _ => bind (allocN c) fun _ => readChunks k (rem - c)
+      -- k := n - len(data); if k > len(chunk) { k = len(chunk) }; io.ReadFull(r, chunk[:k]); data = append(data, chunk[:k]...)
+      let k : Int := min ((n : Int) - (got : Int)) (maxPrealloc : Int)
+      bind (sliceTo maxPrealloc k) fun _ => bind (readFull k.toNat) fun _ => bind (allocN k.toNat) fun _ =>
+      readChunks fuel n (got + k.toNat)
 
 /-- `data := make([]byte, n); io.ReadFull(r, data)` -/
 def allocRead (n : Nat) : M Unit := bind (allocN n) fun _ => bind (readFull n) fun _ => ret ()
@@ -89,7 +121,7 @@ def allocRead (n : Nat) : M Unit := bind (allocN n) fun _ => bind (readFull n) f
 /-- repaired `readN(r, n)` -/
 def readN (n : Nat) : M Unit :=
   if n ≤ maxPrealloc then allocRead n
-  else bind (allocN maxPrealloc) fun _ => readChunks ((n + maxPrealloc - 1) / maxPrealloc) n
+  else bind (allocN maxPrealloc) fun _ => readChunks ((n + maxPrealloc - 1) / maxPrealloc) n 0
 
 /-- `readByteSlice`: returns the length of the data -/
 def readByteSlice (cfg : Cfg) : M Nat :=
@@ -99,8 +131,8 @@ def readByteSlice (cfg : Cfg) : M Nat :=
     bind (allocRead first) fun _ =>
     bind (padLoop ((4 - (1 + first) % 4) % 4)) fun _ => ret first
   else if first = 254 then
-    bind (readFull 3) fun sb =>
-    let n := le sb
+    -- sizeBuf := make([]byte, 4); io.ReadFull(r, sizeBuf[:3]); binary.LittleEndian.Uint32(sizeBuf)
+    bind (readFull 3) fun sb => bind (liftO (u32le (sb ++ [0]))) fun n =>
     bind (if cfg.allocBeforeRead then allocRead n else readN n) fun _ =>
     bind (padLoop ((4 - (4 + n) % 4) % 4)) fun _ => ret n
   else fail "invalid bytes prefix"
@@ -151,20 +183,19 @@ end
 mutual
 /-- `tl.decode` / generated `UnmarshalTL`; the result is the numeric value of an integer (0 otherwise), used for modes -/
 def decode (cfg : Cfg) : Ty → M Nat
-  | .int4 => bind tick fun _ => bind (readFull 4) fun b => ret (le b)
-  | .int8 => bind tick fun _ => bind (readFull 8) fun b => ret (le b)
-  | .bool => bind tick fun _ => bind (readFull 4) fun b =>
-      if le b = 0x997275b5 then ret 1 else if le b = 0xbc799737 then ret 0 else fail "invalid Bool tag"
+  | .int4 => bind tick fun _ => bind (readFull 4) fun b => bind (liftO (u32le b)) fun v => ret v
+  | .int8 => bind tick fun _ => bind (readFull 8) fun b => bind (liftO (u64le b)) fun v => ret v
+  | .bool => bind tick fun _ => bind (readFull 4) fun b => bind (liftO (u32le b)) fun v =>
+      if v = 0x997275b5 then ret 1 else if v = 0xbc799737 then ret 0 else fail "invalid Bool tag"
   | .bytes => bind tick fun _ => bind (readByteSlice cfg) fun _ => ret 0
   | .arr n => bind tick fun _ => bind (readByteSlice cfg) fun l =>
       if l = n then ret 0 else fail "mismatched length of decoded byte slice and array"
   | .int256 => bind tick fun _ => bind (readFull 32) fun _ => ret 0
-  | .vec sz e => bind tick fun _ => bind (readFull 4) fun b =>
-      let ln := le b
+  | .vec sz e => bind tick fun _ => bind (readFull 4) fun b => bind (liftO (u32le b)) fun ln =>
       bind (allocN ((if cfg.trustCount then ln else min ln maxPreallocItems) * sz)) fun _ =>
       vecLoop (decode cfg e) sz ln
   | .struct fs => bind tick fun _ => decodeFields cfg fs 0
-  | .sum alts => bind tick fun _ => bind (readFull 4) fun b => decodeAlts cfg alts (le b)
+  | .sum alts => bind tick fun _ => bind (readFull 4) fun b => bind (liftO (u32le b)) fun tag => decodeAlts cfg alts tag
   | .ptr e => if cfg.nilPtrPanics then crash "reflect: call of reflect.Value.Type on zero Value"
       else bind tick fun _ => decode cfg e
   | .bad => bind tick fun _ => fail "type not implemented"
@@ -368,6 +399,33 @@ def parseTy (s : String) : Option Ty :=
   match pTy s.toList with
   | some (t, []) => some t
   | _ => none
+
+/-! the printer of the text form (inverse of `parseTy`): the generated descriptor terms (`TongoGen.TldTypes`) are tied to
+the text the harness sends by `desc_X.show = "<text>"`, and `tld.consts` answers `show (parseTy text)` -/
+mutual
+def Ty.show : Ty → String
+  | .int4 => "i"
+  | .int8 => "l"
+  | .bool => "b"
+  | .bytes => "B"
+  | .int256 => "H"
+  | .bad => "X"
+  | .arr n => "A" ++ toString n
+  | .vec sz e => "V" ++ toString sz ++ "(" ++ e.show ++ ")"
+  | .ptr e => "P(" ++ e.show ++ ")"
+  | .struct fs => "T(" ++ fs.show ++ ")"
+  | .sum as => "U(" ++ as.show ++ ")"
+def Fields.show : Fields → String
+  | .nil => ""
+  | .cons cond isMode t rest =>
+    (if isMode then "m" else "") ++ (match cond with | some k => "?" ++ toString k ++ ":" | none => "") ++ t.show ++
+      (match rest with | .nil => "" | _ => "," ++ rest.show)
+def Alts.show : Alts → String
+  | .nil => ""
+  | .cons tag t rest =>
+    (match tag with | some n => toString n | none => "!") ++ "=" ++ t.show ++
+      (match rest with | .nil => "" | _ => "," ++ rest.show)
+end
 
 /-! ### the helpers that sit directly on network data (liteclient/client.go, liteclient/decoder.go) -/
 
